@@ -1,6 +1,6 @@
 (** C04 - property theorems *)
 From Coq Require Import ZArith NArith PArith List Bool.
-From Cohdl Require Import Vhdl.Value Vhdl.Syntax Vhdl.Sem Vhdl.DefAssign Vhdl.DeadVars Equiv.Explore Equiv.VhdlTS Equiv.RefTS Equiv.Monitor Equiv.StoreTS Models.SeqRef Models.ResetRef Models.Coro Models.CoroReset.
+From Cohdl Require Import Vhdl.Value Vhdl.Syntax Vhdl.Sem Vhdl.DefAssign Vhdl.DeadVars Equiv.Explore Equiv.VhdlTS Equiv.RefTS Equiv.Monitor Equiv.StoreTS Models.SeqRef Models.ResetRef Models.Coro Models.CoroReset Models.Lower Models.LowerProofs Models.LowerReset Models.LowerResetProofs.
 Import ListNotations.
 
 Theorem C04_case_sound :
@@ -38,3 +38,88 @@ Theorem C04_coroutine_restarts :
     fst (ref_step_rst is_async active_low prog st (rv :: rest)) = rinit.
 Proof. intros. unfold ref_step_rst. rewrite H. reflexivity. Qed.
 Print Assumptions C04_coroutine_restarts.
+
+(** ** reset of the lowered state machine, for ALL coroutine programs of [Lower.in_grammar]
+
+    [mstepZ_rst is_async active_low rs m] is the machine [m] inside the reset clause the compiler emits
+    ([if reset then <defaults>; s_proc <= state_0 else case s_proc ...], outside [rising_edge] for an
+    asynchronous reset) over configurations [state; v; cnt; mark; wait counter]; [rs_with rw] = the three
+    objects of the generated sources have the default 0 and none is noreset, [rw] is the declaration of the
+    wait counter (Waiter: default Null; std.wait_for: a local signal without default, [r_rst = false]);
+    [rs_all] = [rs_with] (reset to 0).  Both observation conventions of C04 (outputs before ++ after the edge;
+    an asynchronous reset already visible before the edge) and both polarities are the parameters
+    [is_async] / [active_low]. *)
+Theorem C04_lower_rst_correct :
+  forall (is_async active_low : bool) (p : stmt), in_grammar p = true ->
+  forall ins, traceB (mstepZ_rst is_async active_low rs_all (lower p)) minitZ ins
+            = traceB (ref_step_rst is_async active_low p) rinit ins.
+Proof. exact lower_rst_correct. Qed.
+Print Assumptions C04_lower_rst_correct.
+
+(** any declaration and any power-up value of the wait counter *)
+Theorem C04_lower_rst_correct_gen :
+  forall (is_async active_low : bool) (rw : rdecl) (wc0 : Z) (p : stmt), in_grammar p = true ->
+  forall ins, traceB (mstepZ_rst is_async active_low (rs_with rw) (lower p)) [0; 0; 0; 0; wc0]%Z ins
+            = traceB (ref_step_rst is_async active_low p) rinit ins.
+Proof. exact lower_rst_correct_gen. Qed.
+Print Assumptions C04_lower_rst_correct_gen.
+
+(** one clock with the reset active takes ANY configuration - any value of the state register (also one
+    that names no state) and of the objects, reachable or not - to the power-up configuration (a wait
+    counter without default keeps its value) ... *)
+Theorem C04_lower_reset_from_any_config :
+  forall is_async active_low rw m n v c k wc rv rest, active rv active_low = true ->
+    fst (mstepZ_rst is_async active_low (rs_with rw) m [n; v; c; k; wc] (rv :: rest))
+    = [0; 0; 0; 0; if r_rst rw then r_def rw else wc]%Z.
+Proof. exact reset_from_any_config. Qed.
+Print Assumptions C04_lower_reset_from_any_config.
+
+Theorem C04_lower_reset_from_any_config_all :
+  forall is_async active_low m n v c k wc rv rest, active rv active_low = true ->
+    fst (mstepZ_rst is_async active_low rs_all m [n; v; c; k; wc] (rv :: rest)) = minitZ.
+Proof. exact reset_from_any_config_all. Qed.
+Print Assumptions C04_lower_reset_from_any_config_all.
+
+(** ... so that behaviour after it is the power-up behaviour of the coroutine (restart from the first
+    statement), also when the reset hit the middle of a wait_for whose counter is not reset *)
+Theorem C04_lower_reset_then_powerup_trace :
+  forall is_async active_low rw p, in_grammar p = true ->
+  forall n v c k wc rv rest, active rv active_low = true ->
+  forall ins,
+    traceB (mstepZ_rst is_async active_low (rs_with rw) (lower p))
+           (fst (mstepZ_rst is_async active_low (rs_with rw) (lower p) [n; v; c; k; wc] (rv :: rest))) ins
+    = traceB (ref_step_rst is_async active_low p) rinit ins.
+Proof. exact reset_then_powerup_trace. Qed.
+Print Assumptions C04_lower_reset_then_powerup_trace.
+
+(** arbitrary declarations [rs] (objects without default or marked noreset have [r_rst = false]): the
+    state register returns to state 0, every object takes [apply_reset], i.e. its default if resettable
+    and its old value otherwise; configurations that agree on the untouched objects are merged *)
+Theorem C04_lower_reset_general :
+  forall is_async active_low rs m n v c k wc rv rest, active rv active_low = true ->
+    fst (mstepZ_rst is_async active_low rs m [n; v; c; k; wc] (rv :: rest)) = 0%Z :: apply_reset rs [v; c; k; wc].
+Proof. exact mstepZ_rst_reset. Qed.
+Print Assumptions C04_lower_reset_general.
+
+Theorem C04_apply_reset_nth :
+  forall rs st i d dr, (i < length rs)%nat -> (i < length st)%nat ->
+    nth i (apply_reset rs st) d = if r_rst (nth i rs dr) then r_def (nth i rs dr) else nth i st d.
+Proof. exact apply_reset_nth. Qed.
+Print Assumptions C04_apply_reset_nth.
+
+Theorem C04_lower_reset_merges_configs :
+  forall is_async active_low rs m n1 v1 c1 k1 w1 n2 v2 c2 k2 w2 rv rest, active rv active_low = true ->
+    apply_reset rs [v1; c1; k1; w1] = apply_reset rs [v2; c2; k2; w2] ->
+    forall ins,
+      traceB (mstepZ_rst is_async active_low rs m) (fst (mstepZ_rst is_async active_low rs m [n1; v1; c1; k1; w1] (rv :: rest))) ins
+      = traceB (mstepZ_rst is_async active_low rs m) (fst (mstepZ_rst is_async active_low rs m [n2; v2; c2; k2; w2] (rv :: rest))) ins.
+Proof. exact reset_merges_configs. Qed.
+Print Assumptions C04_lower_reset_merges_configs.
+
+(** non-vacuity: a grammar program (nested loops, call) and an unreachable configuration that an
+    asynchronous active-low reset takes to power-up *)
+Example C04_lower_reset_nonvacuous :
+  in_grammar ex_prog = true /\
+  fst (mstepZ_rst true true rs_all (lower ex_prog) [5; 3; 2; 9; 4]%Z [VL false; VL true; VL true]) = minitZ.
+Proof. exact reset_example. Qed.
+Print Assumptions C04_lower_reset_nonvacuous.
